@@ -5,11 +5,11 @@ in : `T k op a b ta tb fl c ct cv p pt pv`      one operation-table row (13 natu
      `B same rprio lhas lsig lany lrt rhas rsig rany rrt`   binary-operator protocol, one `Side` per operand
      `A onlyKnown hasGetattr ignoredRef`         attribute fallback on a known object
 out: `agree=<0|1> D=<class|-> model=<0|1|NA> conf=<0|1> spec=<0|1>`
-     `res=<E|F|M:i> set=<{ids}|ERR> fixed=<{ids}|ERR> D=<negIdxVariadic|-> exp=<{ids}>/<#IndexError>`
+     `res=<E|F|M:i> set=<{ids}|ERR> D=- exp=<{ids}>/<#IndexError>`   (no exception class: `getitem` is proved sound for all inputs)
      `bin=<report|left|right|nonlit> cpy=<TE|OTHER|L|R> D=<classes|->`
      `diag=<0|1>`
 Unparseable input prints `bad-op`. -/
-open Pya Pya.Ops
+open Pya Pya.C19
 
 def words (s : String) : List String := (s.splitOn " ").filter (· != "")
 
@@ -49,12 +49,11 @@ def handleG (typ : String) (key : String) (mem : List String) : String :=
   | some typ, some k, some ms =>
     let res := getitem typ ms k
     let tag := match res with | .member m => s!"M:{m}" | .fallback => "F" | .error => "E"
-    let d := if D19_negIdxVariadic ms k then "negIdxVariadic" else "-"
     let nMany := (ms.filter (·.1)).length
     let outs := (combos nMany).map fun ns => elemAt (expand ms ns) k
     let classes := outs.filterMap id
     let nerr := (outs.filter (·.isNone)).length
-    s!"res={tag} set={resSet ms res} fixed={resSet ms (getitemFixed typ ms k)} D={d} exp={showSet classes}/{nerr}"
+    s!"res={tag} set={resSet ms res} D=- exp={showSet classes}/{nerr}"
   | _, _, _ => "bad-op"
 
 def handleT (ws : List String) : String :=
